@@ -225,6 +225,11 @@ def jobs_C04(rng, tier):
 
 
 # ====================================================================== C05
+def flat_window_steps(xs, n):
+    """0-based steps at which the (at most n) values in the window are all equal"""
+    return [t for t in range(len(xs)) if len(set(xs[max(0, t + 1 - n): t + 1])) == 1]
+
+
 def flat_steps(xs, n):
     """0-based steps at which the last n changes (d_0 = 0) are all zero"""
     d = [F(0)] + [xs[i] - xs[i - 1] for i in range(1, len(xs))]
@@ -604,7 +609,8 @@ def jobs_C12(rng, tier):
             src = [x if x != 0 else F(1, 4) for x in xs] if nm == "roc" else xs
             js.append(Relation("same", e, [src, [a * x for x in src]], dict(map="id", **tolp(e))))
         e = ex("vst", n)
-        js.append(Relation("same", e, [nondeg, [a * x for x in nondeg]], dict(map="id", tol=1e-9, skip=flat_steps(nondeg, n) + [0])))
+        # on a flat window Vst reports the value itself (C02), which scales: the invariance is for non-flat windows
+        js.append(Relation("same", e, [nondeg, [a * x for x in nondeg]], dict(map="id", tol=1e-9, skip=flat_window_steps(nondeg, gen.window_of(e)))))
         for nm in ("lnret", "drawdown"):
             e = ex(nm, n)
             js.append(Relation("same", e, [pos, [a * x for x in pos]], dict(map="id", **tolp(e))))
